@@ -12,15 +12,27 @@ from tartiflette.types.non_null import GraphQLNonNull
 from tartiflette.utils.errors import graphql_error_from_nodes
 
 
-def _find_args_using_var_in_spread(spreads, per_fragment, args_using_var=None):
+def _find_args_using_var_in_spread(
+    spreads, per_fragment, args_using_var=None, visited_fragments=None
+):
     if not args_using_var:
         args_using_var = []
 
+    # Each fragment is looked at once, however many times (and through
+    # however many other fragments) it is spread
+    if visited_fragments is None:
+        visited_fragments = set()
+
     for spread in spreads:
+        if spread.name.value in visited_fragments:
+            continue
+        visited_fragments.add(spread.name.value)
+
         args_using_var = _find_args_using_var_in_spread(
             per_fragment.get(spread.name.value, {}).get("spreads", []),
             per_fragment,
             args_using_var,
+            visited_fragments,
         )
         args_using_var.extend(
             per_fragment.get(spread.name.value, {}).get("args_using_var", [])
